@@ -109,7 +109,7 @@ open Lemmas.WriterTotal in
     characters, numbers a non-empty text — no assumption on characters or value kinds),
       * it succeeds  ⇔  `containersCE cif` (every block / frame code, every data name it writes, every string and every number
         text it passes through `write_char` consists of CIF 1.1 characters) and `containersVE cif` (no list, no table, no string
-        that can only be a text field and contains `<LF>;` — at any depth of save frames),
+        that holds a carriage return or can only be a text field and contains `<LF>;` — at any depth of save frames),
       * if it fails, the code is CIF_DISALLOWED_CHAR and `containersCE` fails, or CIF_DISALLOWED_VALUE and `containersVE` fails.
     So a CIF holding a list, a table, an inexpressible string or a character outside the CIF 1.1 set is never written (nothing
     is silently altered or dropped: what IS written round-trips, `C13_roundtrip`).  Invariant `Out` of Lemmas/WriterV1Refuse.lean. -/
@@ -164,10 +164,12 @@ example : writeCif 1 (C02Doc.oneItem (.lst [])) = .error Gen.ErrCodes.CIF_DISALL
   · apply C13_refuses_value _ (hok _ rfl)
     · simp [C02Doc.oneItem, containersCE, containerCE, loopsCE, loopCE, isScalars, packetsCE, itemsCE, valCE]; decide
     · simp only [C02Doc.oneItem, containersVE, containerVE, loopsVE, packetsVE, itemsVE, valVE, and_true, true_and, Classical.not_not]
-      exact ⟨by decide, by decide⟩
+      exact Or.inr ⟨by decide, by decide⟩
   · apply C13_refuses_char _ (hok _ rfl)
     · simp only [C02Doc.oneItem, containersVE, containerVE, loopsVE, packetsVE, itemsVE, valVE, and_true, true_and]
-      intro h; exact absurd h.1 (by decide)
+      rintro (h | h)
+      · exact absurd h (by decide)
+      · exact absurd h.1 (by decide)
     · simp [C02Doc.oneItem, containersCE, containerCE, loopsCE, loopCE, isScalars, packetsCE, itemsCE, valCE]; decide
   · apply C13_refuses_char
     · simp [containersOk, containerOk]
